@@ -143,44 +143,39 @@ pub fn count_expansions(p: &str, cap: usize) -> usize {
 /// Requires properly nested braces.  (Iterative, so that the reference itself
 /// has no depth limit on patterns with thousands of groups.)
 pub fn expand(p: &str) -> Vec<String> {
+    // Braces and commas are ASCII, so the scan can work on bytes and slice the
+    // string at the positions found (they are character boundaries).
     let mut out = vec![];
     let mut work = vec![p.to_string()];
     while let Some(p) = work.pop() {
-        let chars: Vec<char> = p.chars().collect();
-        let Some(open) = chars.iter().position(|&c| c == '{') else {
+        let b = p.as_bytes();
+        let Some(open) = b.iter().position(|&c| c == b'{') else {
             out.push(p);
             continue;
         };
         let mut depth = 0;
-        let mut alts: Vec<String> = vec![];
-        let mut cur = String::new();
+        let mut alts: Vec<&str> = vec![];
+        let mut start = open + 1;
         let mut close = None;
-        for (j, &c) in chars.iter().enumerate().skip(open) {
-            if c == '{' {
+        for (j, &c) in b.iter().enumerate().skip(open) {
+            if c == b'{' {
                 depth += 1;
-                if depth > 1 {
-                    cur.push(c);
-                }
-            } else if c == '}' {
+            } else if c == b'}' {
                 depth -= 1;
                 if depth == 0 {
-                    alts.push(std::mem::take(&mut cur));
+                    alts.push(&p[start..j]);
                     close = Some(j);
                     break;
                 }
-                cur.push(c);
-            } else if c == ',' && depth == 1 {
-                alts.push(std::mem::take(&mut cur));
-            } else {
-                cur.push(c);
+            } else if c == b',' && depth == 1 {
+                alts.push(&p[start..j]);
+                start = j + 1;
             }
         }
         let close = close.expect("expand() needs properly nested braces");
-        let prefix: String = chars[..open].iter().collect();
-        let suffix: String = chars[close + 1..].iter().collect();
-        for a in alts.iter().rev() {
-            work.push(format!("{prefix}{a}{suffix}"));
-        }
+        let (prefix, suffix) = (&p[..open], &p[close + 1..]);
+        let next: Vec<String> = alts.iter().rev().map(|a| format!("{prefix}{a}{suffix}")).collect();
+        work.extend(next);
     }
     out
 }
